@@ -202,3 +202,69 @@ def run_round_cast(P, rep, rule="R-MATH.round"):
                      "(-2^63 is inside the 64-bit range)" % site)
         else:
             rep.ok(rule, site, P.where(fn), "rounded value converted by a plain `as i64`; no float range test")
+
+
+# ---------------------------------------------------------------------------------------
+# R-MATH.float: the float path is the single IEEE operation
+
+FLOAT_SPEC = {"PlusFilter": "Add", "MinusFilter": "Sub", "TimesFilter": "Mul", "DividedByFilter": "Div", "ModuloFilter": "Rem"}
+FLOAT_NOISE = INT_NOISE | {"to_value", "max", "min"}
+
+
+def _float_ops(P, fn, depth=2, seen=None):
+    seen = seen or set()
+    if fn.id in seen:
+        return set(), []
+    seen = seen | {fn.id}
+    ops, calls = set(), []
+    for b in fn.blocks:
+        for st in b["s"]:
+            if st[0] == "a" and st[2]["k"] == "bin" and st[2]["op"] in ("Add", "Sub", "Mul", "Div", "Rem"):
+                ol = op_local(st[2]["a"])
+                ty = P.local_ty(fn, ol[0]) if ol else (P.tstr(fn.crate, st[2]["a"][1]["ty"]) if st[2]["a"][0] == "k" and isinstance(st[2]["a"][1].get("ty"), int) else "")
+                if ty == "f64":
+                    ops.add(st[2]["op"])
+        t = b["t"]
+        if t["k"] == "call" and t.get("f"):
+            f = t["f"]
+            last = f["id"].rsplit("::", 1)[1]
+            if f["krate"].startswith("liquid") and not f.get("trait") and depth > 0 and f["id"].startswith(MATH):
+                g = P.fns.get(f["id"])
+                if g is not None:
+                    o2, c2 = _float_ops(P, g, depth - 1, seen)
+                    ops |= o2
+                    calls += c2
+                    continue
+            if last not in FLOAT_NOISE:
+                calls.append(f["name"])
+    return ops, calls
+
+
+def run_float_path(P, rep, rule="R-MATH.float"):
+    """plus / minus / times / divided_by / modulo on a float operand: the closure that receives the two f64 values performs exactly the
+    one IEEE operation (`+ - * / %` on f64) and nothing else — no rounding, formatting/parsing detour or second operation."""
+    for name, op in sorted(FLOAT_SPEC.items()):
+        root = P.fn_by_key("<%s%s as %s>::evaluate" % (MATH, name, FILTER))
+        site = name.replace("Filter", "").lower()
+        found = False
+        probs = []
+        for fn, _ in SelfOrigins(P, root, seed={}).all_bodies():
+            if fn is root or not any(P.local_ty(fn, l) == "f64" for l in range(1, fn.argc + 1)):
+                continue
+            ops, calls = _float_ops(P, fn)
+            if not ops and not calls:
+                continue
+            found = True
+            if op not in ops:
+                probs.append("the float path does not perform the f64 `%s` itself (operations %s, calls %s)" % (op, sorted(ops), sorted(set(calls))[:3]))
+            elif ops - {op}:
+                probs.append("the float path performs %s besides `%s`" % (sorted(ops - {op}), op))
+            elif calls:
+                probs.append("the float path calls %s around the f64 `%s`: the result is no longer the plain IEEE result" % (sorted(set(calls))[:3], op))
+        if not found:
+            rep.viol(rule, site, P.where(root), "no closure operating on the two f64 operands was found (float path changed shape): not decided")
+        elif probs:
+            for p_ in sorted(set(probs)):
+                rep.viol(rule, site, P.where(root), p_)
+        else:
+            rep.ok(rule, site, P.where(root), "float path = one f64 `%s`" % op)
